@@ -113,8 +113,10 @@ def check_key(res, router, key, cell, configured, eligible, label):
 def run_config(cfg, res):
   from vlib import boot
   from vlib.refs import ring as refring
+  # every other shard runs with the name caches the example configuration suggests (small, so that entries get evicted)
+  ncache = 40 if cfg['name'].rsplit('/', 1)[-1] in ('1', '3', '5', '7') else 0
   ns = boot.boot('carbon-relay', {'RELAY_METHOD': cfg['router'], 'ROUTER_HASH_TYPE': cfg['hash_type'],
-                                  'DESTINATIONS': '127.0.0.1:2004:a'},
+                                  'DESTINATIONS': '127.0.0.1:2004:a', 'CACHE_METRIC_NAMES_MAX': ncache},
                  files={'aggregation-rules.conf': AGG_RULES,
                         'relay-rules.conf': '[default]\ndefault = true\ndestinations = 127.0.0.1:2004:a\n'})
   settings = ns.settings
@@ -205,6 +207,9 @@ def run_config(cfg, res):
     if ok and len(dests) >= 2:
       live = list(dests)
       steps = []
+      probe = names[:30] + table[7::2200]
+      for k in probe:
+        list(target.getDestinations(k))        # routed once before anything changes
       for step in range(4):
         if len(live) > 1 and (step % 2 == 0 or len(live) == len(dests)):
           # prefer removing one instance of a server that has several
@@ -225,6 +230,18 @@ def run_config(cfg, res):
         elig_now = len(set(d[0] for d in live)) if cell['diverse'] else len(live)
         cell_now = dict(cell, dests=[list(d) for d in live], history=steps)
         bad = False
+        # the answer for a key does not change while the destination set does not: ask, ask about many other keys, ask again
+        a1 = [tuple(target.getDestinations(k)) for k in probe]
+        for k in table[11::160]:
+          list(target.getDestinations(k))
+        a2 = [tuple(target.getDestinations(k)) for k in probe]
+        res.count('repeat_lookup_evaluations', len(probe))
+        for k, x, y in zip(probe, a1, a2):
+          if x != y:
+            res.violation('%s/%s/unstable-across-lookups' % (cfg['router'], cfg['hash_type']), 'key %r: %r, and after other keys were looked up %r, with the same '
+                          'destinations %r (history %r)' % (k, x, y, sorted(live, key=str), steps), dict(key=k, cell=cell_now))
+            bad = True
+            break
         for key in table[(step * 5) % 16::16]:
           if not check_key(res, target, key, cell_now, conf_now, elig_now, cfg['router'] + '/' + cfg['hash_type'] + '/after-membership-change'):
             bad = True
